@@ -1,4 +1,5 @@
 (* Corr/C01Run.v — C01 uses the shared L1 correspondence evaluator (KGet cases: lsmcase / mismatches), the
-   byte-level read-path evaluator (KBytes cases: c01bcase / bmismatches) and the batch / write-path evaluator
-   (KBEnc, KBLoad, KBGroup, KBJournal, KBMem cases: c01xcase / xmismatches). *)
-From GL Require Export Corr.LsmRun Corr.C01BytesRun Corr.C01BatchRun.
+   byte-level read-path evaluator (KBytes cases: c01bcase / bmismatches), the batch / write-path evaluator
+   (KBEnc, KBLoad, KBGroup, KBJournal, KBMem cases: c01xcase / xmismatches) and the byte-level flush / compaction
+   evaluator (KFlushBytes, KCompactBytes cases: c01fcase / fmismatches). *)
+From GL Require Export Corr.LsmRun Corr.C01BytesRun Corr.C01BatchRun Corr.C01FlushRun.
